@@ -6,7 +6,10 @@ import subprocess
 ROOT = os.path.dirname(os.path.dirname(os.path.abspath(__file__)))
 
 # property id -> list of harness names (directories under /verif/bounded)
-HARNESSES = {}
+HARNESSES = {
+    "C12": ["hvs"],
+    "C13": ["hvs"],
+}
 
 
 def run(pid, tier, seed):
